@@ -238,6 +238,34 @@ def run(ctx):
               'a copy before jtvec overwrites it in place / not written back: '
               'a later gradient is J^T of the last vector, not of the '
               'residual', ctx.where(sm, jtv))
+    # the residual / weights that jtvec swaps must be THIS simulation's: the
+    # survey data can carry residual and weights of another simulation (a
+    # shared or copied survey), so jtvec evaluates the misfit first
+    mis_ = [n for n in ast.walk(jtv) if isinstance(n, ast.Attribute) and
+            ast.unparse(n) == 'self.misfit']
+    over_ = find('self.data.residual[...] = _v_ / __', jtv)
+    ctx.check('C08.V4.weights', 'jtvec evaluates the misfit before it swaps '
+              'the residual', bool(mis_) and bool(over_) and
+              min(m.lineno for m in mis_) < over_[0][0].lineno,
+              'jtvec divides by data.weights and saves data.residual without '
+              'making sure they were computed by this simulation: with a '
+              'survey that carries the residual of another simulation, '
+              'jtvec(w) returns the misfit gradient (w ignored) and leaves '
+              'the foreign residual behind', ctx.where(sm, jtv))
+    # siblings agree on the layered mode: jvec refuses it, so must jtvec (the
+    # layered gradient is a finite difference of the misfit, it cannot take
+    # an arbitrary vector)
+    def refuses(fn_):
+        return any(isinstance(n, ast.If) and ast.unparse(n.test) ==
+                   'self.layered' and any(isinstance(b, ast.Raise)
+                                          for b in n.body)
+                   for n in ast.walk(fn_))
+    ctx.check('C08.V4.weights', 'jtvec refuses layered mode like jvec',
+              refuses(jtv) or not refuses(jv), 'jvec raises '
+              'NotImplementedError for layered simulations, jtvec computes '
+              'something: the layered finite-difference gradient ignores the '
+              'vector (jtvec(0) != 0, jtvec(2w) != 2 jtvec(w))',
+              ctx.where(sm, jtv))
     ctx.check('C08.V4.weights', 'jtvec uses the gradient machinery',
               has('self.gradient', jtv), 'jtvec does not go through the '
               'gradient', ctx.where(sm, jtv))
